@@ -1,5 +1,6 @@
 import EaselModel.Msafile.A2mWritable
 import EaselModel.Msafile.AfaIdem
+import EaselModel.Msafile.A2mInsIdem
 /-! A2M: re-writing the re-read alignment reproduces the same bytes (`write (read (write m)) = write m`). -/
 namespace EaselModel.Msafile
 
